@@ -11,7 +11,7 @@ pub fn stub_format(_args: core::fmt::Arguments<'_>) -> String {
 /// Uninterpreted-function abstraction of 64-bit multiplication (hand Ackermannisation).
 /// Every call returns a fresh symbolic value constrained to agree with all earlier calls on equal
 /// arguments. A proof under this stub holds for every interpretation of `wrapping_mul`.
-pub const UF_CAP: usize = 48;
+pub const UF_CAP: usize = 112;
 pub static mut UF_A: [u64; UF_CAP] = [0; UF_CAP];
 pub static mut UF_B: [u64; UF_CAP] = [0; UF_CAP];
 pub static mut UF_R: [u64; UF_CAP] = [0; UF_CAP];
@@ -185,5 +185,63 @@ pub mod refhash {
         h = h.wrapping_mul(P3);
         h ^= h >> 32;
         h
+    }
+}
+
+// ---------------------------------------------------------------------------------------------
+// Reference models of std sorting / selection (stub targets). std's pattern-defeating quicksort and
+// introselect do not get through symbolic execution even for 4 elements (> 300 s); these insertion-sort
+// models satisfy the documented contracts of the std functions they replace and are part of the claim
+// wherever they are listed as stubs.
+// ---------------------------------------------------------------------------------------------
+
+/// contract of `<[T]>::sort_unstable`: ascending order, a permutation of the input
+pub fn model_sort_unstable<T: Ord>(s: &mut [T]) {
+    let n = s.len();
+    let mut i = 1;
+    while i < n {
+        let mut j = i;
+        while j > 0 && s[j - 1] > s[j] {
+            s.swap(j - 1, j);
+            j -= 1;
+        }
+        i += 1;
+    }
+}
+
+/// contract of `<[T]>::select_nth_unstable`: element k is the one a full sort would put there, everything
+/// before it is <= it, everything after it is >= it
+pub fn model_select_nth<T: Ord>(s: &mut [T], k: usize) -> (&mut [T], &mut T, &mut [T]) {
+    model_sort_unstable(s);
+    let (l, rest) = s.split_at_mut(k);
+    let (m, r) = rest.split_first_mut().unwrap();
+    (l, m, r)
+}
+
+/// contract of `<[T]>::sort_by` (stable)
+pub fn model_sort_by<T, F: FnMut(&T, &T) -> core::cmp::Ordering>(s: &mut [T], mut f: F) {
+    let n = s.len();
+    let mut i = 1;
+    while i < n {
+        let mut j = i;
+        while j > 0 && f(&s[j - 1], &s[j]) == core::cmp::Ordering::Greater {
+            s.swap(j - 1, j);
+            j -= 1;
+        }
+        i += 1;
+    }
+}
+
+/// contract of `<[T]>::sort_by_key` (stable)
+pub fn model_sort_by_key<T, K: Ord, F: FnMut(&T) -> K>(s: &mut [T], mut f: F) {
+    let n = s.len();
+    let mut i = 1;
+    while i < n {
+        let mut j = i;
+        while j > 0 && f(&s[j - 1]) > f(&s[j]) {
+            s.swap(j - 1, j);
+            j -= 1;
+        }
+        i += 1;
     }
 }
